@@ -175,11 +175,11 @@ open Nx.L1 Nx.Prudp in
 /-- **unreliable data on the endpoint model**: every packet `send_unreliable(data)` hands to the transport is a DATA packet
     without the RELIABLE flag that decodes — at any endpoint holding the same unreliable base key and cipher setting, in any
     state, after any other traffic — to exactly `data`, and decoding it leaves that endpoint as it was -/
-theorem unreliable_delivered_is_what_was_sent (env : Env) (hcomp : ∀ b, env.compress b = b) (hdec : ∀ b, env.decompress b = .ok b)
+theorem unreliable_delivered_is_what_was_sent (env : Env) (hl : EnvLaws env)
     (now : Time) (a b : Conn) (data : Bytes) (hk : b.unrelKey = a.unrelKey) (hon : b.cipherOn = a.cipherOn) :
     ∀ q ∈ emitted (a.sendUnreliable env now data),
       q.type = TYPE_DATA ∧ hasReliable q.flags = false ∧ b.decodePayload env q = .ok (data, b) :=
-  unreliable_end_to_end env hcomp hdec now a b data hk hon
+  unreliable_end_to_end env hl now a b data hk hon
 
 /-! non-vacuity: a connected endpoint does emit a packet for `send_unreliable` (stream transport only to keep the kernel's
     evaluation short; with RC4 the theorem is the same statement) -/
@@ -242,33 +242,35 @@ theorem window_update_natural {α β : Type} (f : α → β) (w : Window α) (id
     (w.map f).update id (f p) = ((w.update id p).1.map f, (w.update id p).2.map f) := update_map f w id p
 
 open Nx.L1 Nx.Prudp in
-theorem l1_release_loop_refines_l2 (env : Env) (hdec : ∀ b, env.decompress b = .ok b) (sub : Nat) (ci : Cipher)
+theorem l1_release_loop_refines_l2 (env : Env) (hnc : ∀ b, env.decompress b ≠ .error .closed) (sub : Nat) (ci : Cipher)
     (rel : List Packet) (c : Conn) (core : Core) (hw : SubWF c sub) (hc : cipherOf c sub = ci)
-    (hgood : ∀ q ∈ rel, q.substreamId = sub ∧ hasReliable q.flags = true) (hr : RRel c sub core) :
-    RRel (Conn.consume env sub rel c).c sub (core.consume ci (rel.map wireOf)) ∧
+    (hgood : ∀ q ∈ rel, q.substreamId = sub ∧ hasReliable q.flags = true)
+    (herr : ∀ e, (Conn.consume env sub rel c).err = some e → e = .closed) (hr : RRel c sub core) :
+    RRel (Conn.consume env sub rel c).c sub (core.consume (wrap env ci) (rel.map wireOf)) ∧
     SubWF (Conn.consume env sub rel c).c sub ∧ cipherOf (Conn.consume env sub rel c).c sub = ci :=
-  consume_refines env hdec sub ci rel c core hw hc hgood hr
+  consume_refines env hnc sub ci rel c core hw hc hgood herr hr
 
 open Nx.L1 Nx.Prudp in
-theorem l1_process_reliable_refines_l2 (env : Env) (hdec : ∀ b, env.decompress b = .ok b) (sub : Nat) (c : Conn) (w : Window Packet)
+theorem l1_process_reliable_refines_l2 (env : Env) (sub : Nat) (c : Conn) (w : Window Packet)
     (core : Core) (nrel : Nat) (p : Packet) (hw : SubWF c sub) (hwl : sub < c.windows.length) (hwin : c.windows[sub]? = some w)
-    (hgw : GoodWin sub w) (hp : p.substreamId = sub ∧ hasReliable p.flags = true) (hr : RRel c sub core) (hlive : c.eof = false) :
+    (hgw : GoodWin sub w) (hp : p.substreamId = sub ∧ hasReliable p.flags = true) (hr : RRel c sub core) (hlive : c.eof = false)
+    (hnc : ∀ b, env.decompress b ≠ .error .closed) (herr : ∀ e, (c.processReliable env p).err = some e → e = .closed) :
     ∃ w', (c.processReliable env p).c.windows[sub]? = some w' ∧ GoodWin sub w' ∧
-      Receiver.arrive (cipherOf c sub) ⟨w.map wireOf, nrel, core⟩ (wireOf p) =
-        ⟨w'.map wireOf, nrel + (w.update p.packetId p).2.length, (Receiver.arrive (cipherOf c sub) ⟨w.map wireOf, nrel, core⟩ (wireOf p)).core⟩ ∧
-      RRel (c.processReliable env p).c sub (Receiver.arrive (cipherOf c sub) ⟨w.map wireOf, nrel, core⟩ (wireOf p)).core ∧
+      Receiver.arrive (wrap env (cipherOf c sub)) ⟨w.map wireOf, nrel, core⟩ (wireOf p) =
+        ⟨w'.map wireOf, nrel + (w.update p.packetId p).2.length, (Receiver.arrive (wrap env (cipherOf c sub)) ⟨w.map wireOf, nrel, core⟩ (wireOf p)).core⟩ ∧
+      RRel (c.processReliable env p).c sub (Receiver.arrive (wrap env (cipherOf c sub)) ⟨w.map wireOf, nrel, core⟩ (wireOf p)).core ∧
       SubWF (c.processReliable env p).c sub ∧ cipherOf (c.processReliable env p).c sub = cipherOf c sub :=
-  processReliable_refines env hdec sub c w core nrel p hw hwl hwin hgw hp hr hlive
+  processReliable_refines env sub c w core nrel p hw hwl hwin hgw hp hr hlive hnc herr
 
 open Nx.L1 Nx.Prudp in
-theorem l1_send_refines_l2 (env : Env) (hcomp : ∀ b, env.compress b = b) (now : Time) (c : Conn) (data : Bytes) (sub n pos : Nat)
+theorem l1_send_refines_l2 (env : Env) (now : Time) (c : Conn) (data : Bytes) (sub n pos : Nat)
     (hs : SRel c sub n pos) :
-    (emitted (c.send env now data sub)).map wireOf <+: wiresOf (cipherOf c sub) n pos (split c.fragmentSize data) ∧
+    (emitted (c.send env now data sub)).map wireOf <+: wiresOf (wrap env (cipherOf c sub)) n pos (split c.fragmentSize data) ∧
     ((c.send env now data sub).err = none → (c.send env now data sub).c.linkUp = true →
-      (emitted (c.send env now data sub)).map wireOf = wiresOf (cipherOf c sub) n pos (split c.fragmentSize data) ∧
+      (emitted (c.send env now data sub)).map wireOf = wiresOf (wrap env (cipherOf c sub)) n pos (split c.fragmentSize data) ∧
       SRel (c.send env now data sub).c sub (iterSeq (split c.fragmentSize data).length n)
-        (pos + wiresLen (wiresOf (cipherOf c sub) n pos (split c.fragmentSize data)))) :=
-  send_refines env hcomp now c data sub n pos hs
+        (pos + wiresLen (wiresOf (wrap env (cipherOf c sub)) n pos (split c.fragmentSize data)))) :=
+  send_refines env now c data sub n pos hs
 
 /-! non-vacuity of the send side: a fresh connection's substream 0 has next id 1 at cipher position 0 -/
 open Nx.L1 Nx.Prudp in
@@ -320,52 +322,52 @@ theorem endpoint_cipher_ok (c : Conn) (sub : Nat) : CipherOk (cipherOf c sub) :=
 open Nx.L1 Nx.Prudp in
 /-- **every run of the two-endpoint system is a run of the L2 channel** (same sends, arrivals of the same log entries),
     within the channel's half-window hypothesis, and the coupling holds at its end -/
-theorem C01_system_refines_channel (env : Env) (hcomp : ∀ b, env.compress b = b) (hdec : ∀ b, env.decompress b = .ok b)
+theorem C01_system_refines_channel (env : Env) (hl : EnvLaws env)
     (sub : Nat) (ci : Cipher) (size : Nat) (hsz : 1 ≤ size) (start : Nat) (ops : List SysOp) (s : Sys) (ch : Chan)
-    (h0 : Good sub ci size start s ch) (hok : Sys.runOk env sub s ops = true) :
-    Good sub ci size start (Sys.run env sub s ops) (Chan.run ci size ch (Sys.absOps env sub s ops)) ∧
-    Chan.runOk ci size ch (Sys.absOps env sub s ops) = true :=
-  sys_refines env hcomp hdec sub ci size hsz start ops s ch h0 hok
+    (h0 : Good env sub ci size start s ch) (hok : Sys.runOk env sub s ops = true) :
+    Good env sub ci size start (Sys.run env sub s ops) (Chan.run (wrap env ci) size ch (Sys.absOps env sub s ops)) ∧
+    Chan.runOk (wrap env ci) size ch (Sys.absOps env sub s ops) = true :=
+  sys_refines env hl sub ci size hsz start ops s ch h0 hok
 
 open Nx.L1 Nx.Prudp in
 /-- **Safety, end to end.** Whatever the network does with what the sending endpoint emitted, what the receiving
     application can `recv` on the substream is a prefix of the messages the sending application's `send` accepted. -/
-theorem C01_system_safety (env : Env) (hcomp : ∀ b, env.compress b = b) (hdec : ∀ b, env.decompress b = .ok b)
+theorem C01_system_safety (env : Env) (hl : EnvLaws env)
     (sub : Nat) (ci : Cipher) (size : Nat) (hsz : 1 ≤ size) (start : Nat) (ops : List SysOp) (s : Sys) (ch : Chan)
-    (h0 : Good sub ci size start s ch) (hok : Sys.runOk env sub s ops = true) :
+    (h0 : Good env sub ci size start s ch) (hok : Sys.runOk env sub s ops = true) :
     ((Sys.run env sub s ops).b.queues[sub]?.getD []) <+: (Sys.run env sub s ops).accepted :=
-  good_safe (sys_refines env hcomp hdec sub ci size hsz start ops s ch h0 hok).1
+  good_safe (sys_refines env hl sub ci size hsz start ops s ch h0 hok).1
 
 open Nx.L1 Nx.Prudp in
 /-- **Completeness, end to end.** Once the receiver's window has released as many packets as the sender emitted and no
     `send` is between its fragments, the receiving application has exactly the accepted messages, and no partial message is pending. -/
-theorem C01_system_complete (env : Env) (hcomp : ∀ b, env.compress b = b) (hdec : ∀ b, env.decompress b = .ok b)
+theorem C01_system_complete (env : Env) (hl : EnvLaws env)
     (sub : Nat) (ci : Cipher) (size : Nat) (hsz : 1 ≤ size) (start : Nat) (ops : List SysOp) (s : Sys) (ch : Chan)
-    (h0 : Good sub ci size start s ch) (hok : Sys.runOk env sub s ops = true)
+    (h0 : Good env sub ci size start s ch) (hok : Sys.runOk env sub s ops = true)
     (hall : (Sys.run env sub s ops).nrel = (Sys.run env sub s ops).net.length)
     (hidle : (Sys.run env sub s ops).pend = [])
     (hopen : (Sys.run env sub s ops).a.state = STATE_CONNECTED ∨ (Sys.run env sub s ops).clean = true) :
     ((Sys.run env sub s ops).b.queues[sub]?.getD []) = (Sys.run env sub s ops).accepted ∧
     ((Sys.run env sub s ops).b.eof = false → ((Sys.run env sub s ops).b.fragBufs[sub]?.getD []) = []) :=
-  good_complete (sys_refines env hcomp hdec sub ci size hsz start ops s ch h0 hok).1 hall hidle hopen
+  good_complete (sys_refines env hl sub ci size hsz start ops s ch h0 hok).1 hall hidle hopen
 
 open Nx.L1 Nx.Prudp in
 /-- **Liveness, end to end.** Starting from the initial channel: if the receiving endpoint is still open, no `send` is between
     its fragments, and every packet the sending endpoint handed to its transport has been delivered at least once (as seen in
     the corresponding channel run), the receiving application has exactly the accepted messages. -/
-theorem C01_system_liveness (env : Env) (hcomp : ∀ b, env.compress b = b) (hdec : ∀ b, env.decompress b = .ok b)
+theorem C01_system_liveness (env : Env) (hl : EnvLaws env)
     (sub : Nat) (ci : Cipher) (size : Nat) (hsz : 1 ≤ size) (start : Nat) (hs : start < 65536) (ops : List SysOp) (s : Sys)
-    (h0 : Good sub ci size start s (Chan.init start)) (hok : Sys.runOk env sub s ops = true)
+    (h0 : Good env sub ci size start s (Chan.init start)) (hok : Sys.runOk env sub s ops = true)
     (hopen : (Sys.run env sub s ops).b.eof = false) (hidle : (Sys.run env sub s ops).pend = [])
     (hconn : (Sys.run env sub s ops).a.state = STATE_CONNECTED ∨ (Sys.run env sub s ops).clean = true)
-    (hall : ∀ j, j < (Sys.run env sub s ops).net.length → j ∈ arrived ci size (Chan.init start) (Sys.absOps env sub s ops)) :
+    (hall : ∀ j, j < (Sys.run env sub s ops).net.length → j ∈ arrived (wrap env ci) size (Chan.init start) (Sys.absOps env sub s ops)) :
     ((Sys.run env sub s ops).b.queues[sub]?.getD []) = (Sys.run env sub s ops).accepted := by
-  obtain ⟨hg, hrok⟩ := sys_refines env hcomp hdec sub ci size hsz start ops s (Chan.init start) h0 hok
-  have hcl : (Chan.run ci size (Chan.init start) (Sys.absOps env sub s ops)).r.core.closed = false := by
+  obtain ⟨hg, hrok⟩ := sys_refines env hl sub ci size hsz start ops s (Chan.init start) h0 hok
+  have hcl : (Chan.run (wrap env ci) size (Chan.init start) (Sys.absOps env sub s ops)).r.core.closed = false := by
     rw [hg.cpl.rrel.closed]; exact hopen
-  have hlen : (Chan.run ci size (Chan.init start) (Sys.absOps env sub s ops)).s.log.length = (Sys.run env sub s ops).net.length := by
+  have hlen : (Chan.run (wrap env ci) size (Chan.init start) (Sys.absOps env sub s ops)).s.log.length = (Sys.run env sub s ops).net.length := by
     rw [← hg.cpl.log, List.length_map]
-  have hrel := all_arrived_all_released ci (good_cipher hg) size hsz start hs _ hrok hcl (fun j hj => hall j (by rw [← hlen]; exact hj))
+  have hrel := all_arrived_all_released (wrap env ci) (good_cipher hl hg) size hsz start hs _ hrok hcl (fun j hj => hall j (by rw [← hlen]; exact hj))
   exact (good_complete hg (by rw [hg.cpl.nrel, hrel, hlen]) hidle hconn).1
 
 open Nx.L1 Nx.Prudp in
@@ -373,12 +375,12 @@ open Nx.L1 Nx.Prudp in
     through the sender's DISCONNECT being released by the window — and `disconnect()` was called while no `send` was between its
     fragments, then everything the sending application passed to `send` had been delivered before: `recv` returns all of it,
     then raises. -/
-theorem C01_system_graceful_close (env : Env) (hcomp : ∀ b, env.compress b = b) (hdec : ∀ b, env.decompress b = .ok b)
+theorem C01_system_graceful_close (env : Env) (hl : EnvLaws env)
     (sub : Nat) (ci : Cipher) (size : Nat) (hsz : 1 ≤ size) (start : Nat) (ops : List SysOp) (s : Sys) (ch : Chan)
-    (h0 : Good sub ci size start s ch) (hok : Sys.runOk env sub s ops = true)
+    (h0 : Good env sub ci size start s ch) (hok : Sys.runOk env sub s ops = true)
     (heof : (Sys.run env sub s ops).b.eof = true) (hclean : (Sys.run env sub s ops).clean = true) :
     ((Sys.run env sub s ops).b.queues[sub]?.getD []) = (Sys.run env sub s ops).accepted :=
-  good_closed (sys_refines env hcomp hdec sub ci size hsz start ops s ch h0 hok).1 heof hclean
+  good_closed (sys_refines env hl sub ci size hsz start ops s ch h0 hok).1 heof hclean
 
 open Nx.L1 Nx.Prudp in
 /-- the hypothesis `Good` holds at the start: for every environment, every substream the settings allow and every choice of
@@ -389,7 +391,7 @@ theorem C01_system_initial (env : Env) (sub : Nat) (hsub : sub ≤ env.s.maxSubs
     (rsb : Option Nat) :
     let a := { Conn.new env va ua ca sa la lpa lta ra rpa rta with state := st }
     let b := { Conn.new env vb ub cb sb lb lpb ltb rb rpb rtb with state := stb, remoteSessionId := rsb }
-    Good sub (cipherOf a sub) env.s.fragmentSize 1 (Sys.fresh a b) (Chan.init 1) :=
+    Good env sub (cipherOf a sub) env.s.fragmentSize 1 (Sys.fresh a b) (Chan.init 1) :=
   fresh_good env sub hsub va vb ua ca sa ub cb sb la ra lb rb lpa lta rpa rta lpb ltb rpb rtb st stb rsb
 
 open Nx.L1 Nx.Prudp in
@@ -400,7 +402,7 @@ theorem C01_system_initial_logged_in (env : Env) (sub : Nat) (hsub : sub ≤ env
     (rsb : Option Nat) :
     let a := { (Conn.new env va ua cka sa la lpa lta ra rpa rta).login pa ca key with state := st }
     let b := { (Conn.new env vb ub ckb sb lb lpb ltb rb rpb rtb).login pb cb key with state := stb, remoteSessionId := rsb }
-    Good sub (cipherOf a sub) env.s.fragmentSize 1 (Sys.fresh a b) (Chan.init 1) :=
+    Good env sub (cipherOf a sub) env.s.fragmentSize 1 (Sys.fresh a b) (Chan.init 1) :=
   fresh_good_login env sub hsub key pa ca pb cb va vb ua cka sa ub ckb sb la ra lb rb lpa lta rpa rta lpb ltb rpb rtb st stb rsb
 
 open Nx.L1 Nx.Prudp in
@@ -446,12 +448,12 @@ open Nx.L1 Nx.Prudp in
     path stores exactly what it emits, the receive path and acknowledgements store nothing), a fired retransmission timer emits
     an element of `net`: a copy of something handed to the transport before, which the network of the system (and the L2
     adversary) may deliver any number of times anyway. `SysOp.fireResend` is a step of the system. -/
-theorem C01_retransmission_is_redelivery (env : Env) (hcomp : ∀ b, env.compress b = b) (hdec : ∀ b, env.decompress b = .ok b)
+theorem C01_retransmission_is_redelivery (env : Env) (hl : EnvLaws env)
     (sub : Nat) (ci : Cipher) (size : Nat) (hsz : 1 ≤ size) (start : Nat) (ops : List SysOp) (s : Sys) (ch : Chan)
-    (h0 : Good sub ci size start s ch) (hok : Sys.runOk env sub s ops = true) (now : Time) (p : Packet) (k : Nat)
+    (h0 : Good env sub ci size start s ch) (hok : Sys.runOk env sub s ops = true) (now : Time) (p : Packet) (k : Nat)
     (hp : p ∈ resendsOf (Sys.run env sub s ops).a) (hr : relevant sub p = true) :
     ∀ q ∈ emitted ((Sys.run env sub s ops).a.fireOne env now (.resend p k)), q = p ∧ q ∈ (Sys.run env sub s ops).net :=
-  resend_is_redelivery env sub _ now p k (sys_refines env hcomp hdec sub ci size hsz start ops s ch h0 hok).1.tim hp hr
+  resend_is_redelivery env sub _ now p k (sys_refines env hl sub ci size hsz start ops s ch h0 hok).1.tim hp hr
 
 open Nx.L1 Nx.Prudp in
 /-- **what a handshake has to establish.** `Established sub start a b` lists observable facts about two connection objects
@@ -459,7 +461,7 @@ open Nx.L1 Nx.Prudp in
     empty, queue and fragment buffer empty, same key, position 0, live; no retransmission of the channel pending). They suffice:
     the two endpoints and the initial channel `Chan.init start` are coupled, and every end-to-end theorem applies from there on. -/
 theorem C01_system_established (sub start : Nat) (a b : Conn) (h : Established sub start a b) :
-    Good sub (cipherOf a sub) a.fragmentSize start (Sys.fresh a b) (Chan.init start) := good_of_established sub start a b h
+    Good env sub (cipherOf a sub) a.fragmentSize start (Sys.fresh a b) (Chan.init start) := good_of_established sub start a b h
 
 /-! non-vacuity, and the link to the handshake: the WHOLE modelled handshake — `handshake()` → SYN → `PRUDPServerStream.handle`
     → SYN/ACK → `handle` → CONNECT → `handle` (the server creates, logs in and serves its connection object) → CONNECT/ACK →
@@ -543,5 +545,45 @@ example :
     (Sys.run env 0 (Sys.fresh a b) ops).net.map (·.type) = [TYPE_DATA, TYPE_DATA, TYPE_DATA, TYPE_PING, TYPE_DATA, TYPE_DATA, TYPE_DISCONNECT] ∧
     (Sys.run env 0 (Sys.fresh a b) ops).nrel = 7 ∧ (Sys.run env 0 (Sys.fresh a b) ops).pend = [] ∧
     (Sys.run env 0 (Sys.fresh a b) ops).b.eof = true ∧ (Sys.run env 0 (Sys.fresh a b) ops).clean = true := by decide +kernel
+
+open Nx.L1 Nx.Prudp in
+/-- **with compression off nothing has to be assumed about exceptions**: the "`process_reliable` raises at most the
+    closed-resource error" conjunct of `Sys.runOk` follows from the coupling when `decompress` cannot fail, so safety of the
+    system holds under the remaining step hypotheses alone (`Sys.runOk0`) -/
+theorem C01_system_safety_without_compression (env : Env) (hl : EnvLaws env) (hdec : ∀ b, ∃ x, env.decompress b = .ok x)
+    (sub : Nat) (ci : Cipher) (size : Nat) (hsz : 1 ≤ size) (start : Nat) (ops : List SysOp) (s : Sys) (ch : Chan)
+    (h0 : Good env sub ci size start s ch) (hok : Sys.runOk0 env sub s ops = true) :
+    ((Sys.run env sub s ops).b.queues[sub]?.getD []) <+: (Sys.run env sub s ops).accepted :=
+  C01_system_safety env hl sub ci size hsz start ops s ch h0 (runOk_of_runOk0 env hl hdec sub ci size hsz start ops s ch h0 hok)
+
+/-- a compression that changes the bytes and whose inverse can fail (a one-byte header, as zlib's 0x78): the laws the system
+    theorems assume are satisfiable by something other than the identity -/
+def markEnv : L1.Env :=
+  { C04.toyEnv with
+    s := { fragmentSize := 2, transport := Nx.Prudp.TRANSPORT_TCP },
+    compress := fun b => 0x78 :: b,
+    decompress := fun b => match b with
+      | 0x78 :: r => .ok r
+      | _ => .error .value }
+
+theorem markEnv_laws : L1.EnvLaws markEnv := by
+  refine ⟨fun _ => rfl, fun _ _ h => (by cases h), fun b h => ?_⟩
+  simp only [markEnv] at h
+  split at h <;> cases h
+
+/-! non-vacuity with compression on: a run over `markEnv` (fragments travel with the header byte in front, so the wire differs
+    from the plaintext and positions advance by the compressed length) with reordering and a duplicate meets `Sys.runOk`
+    — including its no-exception conjunct — and the receiver has exactly the accepted messages -/
+open Nx.L1 Nx.Prudp in
+example :
+    let env := markEnv
+    let a := { Conn.new env (some 1) 1 2 3 ("10.0.0.2", 1) 15 10 ("10.0.0.1", 2) 1 10 with state := STATE_CONNECTED }
+    let b := { Conn.new env (some 1) 4 5 6 ("10.0.0.1", 2) 1 10 ("10.0.0.2", 1) 15 10 with state := STATE_CONNECTED, remoteSessionId := some 3 }
+    let ops := [SysOp.send 0 [1, 2, 3], .send 1 [9], .deliver 2, .deliver 1, .deliverH 2 0, .deliver 1, .disconnect 3, .deliver 3]
+    Sys.runOk env 0 (Sys.fresh a b) ops = true ∧
+    (Sys.run env 0 (Sys.fresh a b) ops).net.map (·.payload) = [[0x78, 1, 2], [0x78, 3], [0x78, 9], []] ∧
+    (Sys.run env 0 (Sys.fresh a b) ops).b.queues = [[[1, 2, 3], [9]]] ∧
+    (Sys.run env 0 (Sys.fresh a b) ops).accepted = [[1, 2, 3], [9]] ∧
+    (Sys.run env 0 (Sys.fresh a b) ops).b.eof = true := by decide +kernel
 
 end Nx.C01
